@@ -9,9 +9,29 @@ if [ ! -x "$V/.build/bin/vrewrite" ] || [ "$V/cmd/vrewrite/main.go" -nt "$V/.bui
   (cd "$V" && go build -o .build/bin/vrewrite ./cmd/vrewrite)
 fi
 out="$VERIF_BDIR/rw"; rm -rf "$out"; mkdir -p "$out"
+if [ "${VRW_MAPS:-0}" = 1 ]; then
+  # range-over-map sites from the compiler's type information (needs the repo's own toolchain)
+  if [ ! -x "$V/.build/bin/vmapsites" ] || [ "$V/cmd/vmapsites/main.go" -nt "$V/.build/bin/vmapsites" ]; then
+    (cd "$V/cmd/vmapsites" && GOTOOLCHAIN=auto go build -o "$V/.build/bin/vmapsites" .)
+  fi
+  python3 - "$out/ms_overlay.json" "${VERIF_MUTANT:-}" "$V" <<'PY'
+import json,sys,os
+rep={"/repo/pkg/Rust-VRF/vrf-func-ffi/src/vrf.go": sys.argv[3]+"/standin/vrf/vrf.go"}
+if sys.argv[2]:
+    rep.update(json.load(open(sys.argv[2]))["Replace"])
+json.dump({"Replace":rep},open(sys.argv[1],"w"))
+PY
+  pk=""; for pkg in "$@"; do pk="$pk ./$pkg"; done
+  (cd /repo && GOTOOLCHAIN=auto "$V/.build/bin/vmapsites" -overlay "$out/ms_overlay.json" -dir /repo $pk) > "$out/mapsites.txt"
+fi
 frags=()
 for pkg in "$@"; do
   src="/repo/$pkg"
+  VRW_FLAGS=""
+  if [ "${VRW_MAPS:-0}" = 1 ]; then
+    grep "^$pkg/[^/]*$" "$out/mapsites.txt" | sed "s#^$pkg/##" > "$out/$(echo $pkg | tr / _).mapsites" || true
+    VRW_FLAGS="-mapsites $out/$(echo $pkg | tr / _).mapsites"
+  fi
   if [ -n "${VERIF_MUTANT:-}" ]; then
     # materialise a scratch copy of the package dir with the mutant's files swapped in
     scratch="$VERIF_BDIR/rwsrc/$pkg"; rm -rf "$scratch"; mkdir -p "$scratch"
